@@ -1644,7 +1644,11 @@ EnsureSizeAux(uint32 size, bool setNumItems, uint32 extraPreallocs, ItemType ** 
             newQueue[i] = QQ_PlunderItem(GetItemAtUnchecked(i));  // we know that (_itemCount < size)
       }
 
-      if (setNumItems) _itemCount = size;
+      if (setNumItems)
+      {
+         if (IsPerItemClearNecessary() == false) {for (uint32 i=_itemCount; i<size; i++) newQueue[i] = GetDefaultItem();}  // trivial items aren't initialized by new[]
+         _itemCount = size;
+      }
       _headIndex = 0;
       _tailIndex = _itemCount-1;
 
@@ -1669,8 +1673,11 @@ EnsureSizeAux(uint32 size, bool setNumItems, uint32 extraPreallocs, ItemType ** 
       if (size > _itemCount)
       {
          // We can do this quickly because the "new" items are already initialized properly
+         // (except for trivial item-types, whose slots aren't reset when an item is removed from the Queue)
+         const uint32 oldItemCount = _itemCount;
          _tailIndex = PrevIndex(InternalizeIndex(size));
          _itemCount = size;
+         if (IsPerItemClearNecessary() == false) {for (uint32 i=oldItemCount; i<size; i++) GetItemAtUnchecked(i) = GetDefaultItem();}
       }
       else (void) RemoveTailMulti(_itemCount-size);
    }
